@@ -250,7 +250,7 @@ Definition altered_to (g : group) (v : string) (earlier : list ocall) (t : table
      | None => false
      end) earlier.
 Definition put_ok (earlier : list ocall) (o : ocall) : bool :=
-  if o_q o || negb (String.eqb (o_sql o) put_sql) then true else
+  if o_q o || match drop_prefix "INSERT INTO settings" (o_sql o) with Some _ => false | None => true end then true else
   match o_args o with
   | [AN fp; _; _; AS v] =>
     if String.eqb v "" then true else
